@@ -222,9 +222,20 @@ class MainJsonStdout(Harness):
         from props.c18 import StubArgparse
         from props.c09 import BANNER, kexinit_pkt
         lists = {'weak': (['diffie-hellman-group1-sha1', 'curve25519-sha256'], ['ssh-dss', 'ssh-ed25519']), 'clean': (['curve25519-sha256'], ['ssh-ed25519']),
-                 'unknown': (['curve25519-sha256', 'zz-unknown-kex'], ['ssh-ed25519'])}[self.arch]
+                 'unknown': (['curve25519-sha256', 'zz-unknown-kex'], ['ssh-ed25519']),
+                 # the probe phases run into errors (connections refused / no banner / reset after the first one): their messages are status lines, too
+                 'probes-refused': (['curve25519-sha256', 'diffie-hellman-group-exchange-sha256'], ['ssh-ed25519', 'ssh-rsa']),
+                 'probes-no-banner': (['curve25519-sha256', 'diffie-hellman-group-exchange-sha256'], ['ssh-ed25519', 'ssh-rsa']),
+                 'probes-reset': (['curve25519-sha256', 'diffie-hellman-group-exchange-sha256'], ['ssh-ed25519', 'ssh-rsa'])}[self.arch]
         pk = kexinit_pkt(*lists)
-        net = AE.FakeNet([AE.Conn([BANNER, pk])] + [AE.Conn([BANNER, pk], 'close') for _ in range(6)], default_end='close')
+        if self.arch == 'probes-refused':
+            net = AE.FakeNet([AE.Conn([BANNER, pk])] + [AE.Conn([], refuse=True) for _ in range(20)])
+        elif self.arch == 'probes-no-banner':
+            net = AE.FakeNet([AE.Conn([BANNER, pk])], default_end='timeout')
+        elif self.arch == 'probes-reset':
+            net = AE.FakeNet([AE.Conn([BANNER, pk])] + [AE.Conn([BANNER, pk[:9]], 'reset') for _ in range(20)])
+        else:
+            net = AE.FakeNet([AE.Conn([BANNER, pk])] + [AE.Conn([BANNER, pk], 'close') for _ in range(6)], default_end='close')
         lv = inp['level']
         lv = lv if isinstance(lv, int) else zx.cur().concretize(lv.e)
         vals = {'host': 'target', 'json': jcount, 'verbose': bool(inp['verbose']), 'batch': bool(inp['batch']), 'level': LEVELS[lv], 'skip_rate_test': True}
@@ -438,7 +449,7 @@ def tasks(tier):
     T.append(JsonVsText('enc', 1, 1, 1, True))
     for c1, c2 in ([('enc', 'mac'), ('kex', 'key')] if q else [('enc', 'mac'), ('mac', 'enc'), ('kex', 'key'), ('key', 'enc'), ('kex', 'mac')]):
         T.append(JsonVsTextTwoCats(c1, c2))
-    for arch in ('weak', 'clean', 'unknown'):
+    for arch in ('weak', 'clean', 'unknown', 'probes-refused', 'probes-no-banner', 'probes-reset'):
         T.append(MainJsonStdout(arch))
     for peer in SEED_PEERS:
         for js in (False, True):
